@@ -24,6 +24,7 @@ import pickle
 import shutil
 import struct
 import tempfile
+import sys
 import zlib
 from pathlib import Path
 
@@ -1097,6 +1098,67 @@ class C11(core.PropertyCheck):
             if dr["diff"]:
                 return f"cached!=clean after flipping {dr['flip']['path']} ({dr['flip']['op']}), which {dr['site']} looked at without recording a dependency: {dr['diff'][0][1]}"
         return None
+
+    # ---- the directive spec changes between saving and loading the cache (command line: --rstspec) ----
+    def extra_checks(self, tier, rng):
+        """`snooty create-cache ROOT` under the built-in spec, then `snooty build ROOT --rstspec=<custom>` with and without the cache,
+        through the real command line in processes of their own: same files, same spec in force, so the same documents,
+        diagnostics and exit status. The custom spec differs from the built-in one in what a link role points to and in one
+        directive it no longer knows."""
+        import subprocess
+        import zipfile
+        import bson
+        spec_text = (core.REPO / "snooty" / "rstspec.toml").read_text(encoding="utf-8")
+        lines = [l for l in spec_text.split("\n") if not l.startswith("cache_url_prefix")]
+        custom = "\n".join(lines).replace('type = {link = "https://en.wikipedia.org/wiki/%s"}', 'type = {link = "https://de.wikipedia.org/wiki/%s"}')
+        if custom == "\n".join(lines):
+            raise core.Infra("rstspec.toml has no wikipedia role to vary")
+        custom = custom.replace("[directive.glossary]", "[directive.glossary-gone]")
+        viol, runs = [], 0
+        for k in range(1 if tier == "quick" else 4):
+            T = Path(tempfile.mkdtemp(prefix="verif-c11-spec-"))
+            try:
+                root = T / "proj"
+                (root / "source").mkdir(parents=True)
+                (root / "snooty.toml").write_text('name = "c11spec"\ntitle = "T"\n')
+                (root / "source" / "index.txt").write_text("=====\nIndex\n=====\n\nSee :wikipedia:`Parsing %d`.\n\n.. toctree::\n\n   /other\n   /terms\n" % k)
+                (root / "source" / "other.txt").write_text("=====\nOther\n=====\n\nPlain *text* only.\n")
+                (root / "source" / "terms.txt").write_text("=====\nTerms\n=====\n\n.. glossary::\n\n   term\n     Meaning.\n")
+                (T / "custom.toml").write_text(custom, encoding="utf-8")
+                env = dict(os.environ, PYTHONPATH=str(core.REPO), DIAGNOSTICS_FORMAT="JSON")
+
+                def cli(*args):
+                    p = subprocess.run([sys.executable, "-m", "snooty", *args], env=env, stdout=subprocess.PIPE, stderr=subprocess.DEVNULL,
+                                       text=True, timeout=600, cwd=str(T))
+                    diags = sorted(l for l in p.stdout.split("\n") if l.startswith('{"diagnostic"'))
+                    return p.returncode, [d.replace(str(root), "<ROOT>") for d in diags]
+
+                def docs(zpath):
+                    out = {}
+                    with zipfile.ZipFile(zpath) as zf:
+                        for name in sorted(zf.namelist()):
+                            raw = zf.read(name)
+                            out[name] = json.dumps(bson.decode(raw), sort_keys=True, default=str) if name.endswith(".bson") else hashlib.sha1(raw).hexdigest()
+                    return out
+
+                rc0, _ = cli("create-cache", "--no-caching", str(root))
+                if not list(root.glob(".snooty-*.cache.gz")) and not list(root.glob("*.cache.gz")):
+                    raise core.Infra(f"create-cache wrote no cache file (exit {rc0})")
+                rc_a, d_a = cli("build", str(root), f"--rstspec={T / 'custom.toml'}", f"--output={T / 'a.zip'}")
+                rc_b, d_b = cli("build", "--no-caching", str(root), f"--rstspec={T / 'custom.toml'}", f"--output={T / 'b.zip'}")
+                runs += 1
+                za, zb = docs(T / "a.zip"), docs(T / "b.zip")
+                diff = [n_ for n_ in sorted(set(za) | set(zb)) if za.get(n_) != zb.get(n_)]
+                if rc_a != rc_b or d_a != d_b or diff:
+                    viol.append({"case": {"kind": "spec-change", "k": k},
+                                 "impl": {"exit": [rc_a, rc_b], "diagnostics_cached": d_a[:4], "diagnostics_clean": d_b[:4], "entries_differ": diff[:6]},
+                                 "desc": (f"cached!=clean: spec: a cache saved under the built-in spec, then `build --rstspec=custom`: exit {rc_a} vs {rc_b} without "
+                                          f"the cache, {len(d_a)} vs {len(d_b)} diagnostics printed, output entries that differ: {diff[:4]}"),
+                                 "key": "cached!=clean: spec"})
+                    break
+            finally:
+                shutil.rmtree(T, ignore_errors=True)
+        return viol, {"spec_changed_between_saving_and_loading": {"command_line_scenarios": runs}}
 
     def finding_key(self, case, impl, desc):
         if case["kind"] != "e2e":
